@@ -390,6 +390,11 @@ func extractDecoder(p *core.Prog, r *core.Result, rule string) *decoderTable {
 				case dt.pop:
 					dc.Pops = append(dc.Pops, c)
 				default:
+					// a helper that reads k single bytes and combines them little-endian is a k-byte reader
+					if w := byteReaderWidth(dt, core.Callee(c)); w > 0 {
+						dc.Reads = append(dc.Reads, decRead{fmt.Sprintf("u%d", 8*w), c, w})
+						break
+					}
 					// a helper of the decoder that reads the payload itself (e.g. decodeShort): its reads are the
 					// reads of the case
 					collectHelperReads(dt, dc, core.Callee(c), 0)
@@ -430,6 +435,10 @@ func collectHelperReads(dt *decoderTable, dc *decCase, h *ssa.Function, depth in
 					dc.Reads = append(dc.Reads, decRead{"u64", c, 8})
 				}
 			default:
+				if w := byteReaderWidth(dt, core.Callee(c)); w > 0 {
+					dc.Reads = append(dc.Reads, decRead{fmt.Sprintf("u%d", 8*w), c, w})
+					break
+				}
 				collectHelperReads(dt, dc, core.Callee(c), depth+1)
 			}
 		}
@@ -485,6 +494,19 @@ func checkReadHelper(p *core.Prog, r *core.Result, rule string, fn *ssa.Function
 			}
 		}
 	}
+	// loop form: for i := n-1; i >= 0; i-- { v = v<<8 | uintNN(b[i]) } - the byte with the lowest index ends up lowest
+	if harr, ok := hornerLittleEndian(stripConv(core.RetVals(rets[0])[0]), n); ok {
+		filled := false
+		for _, c := range core.Calls(fn) {
+			if core.IsMethod(c, pkgPickle, "reader", "Read") {
+				if sl, ok := c.Common().Args[1].(*ssa.Slice); ok && sl.X == harr && sl.Low == nil && sl.High == nil {
+					filled = true
+				}
+			}
+		}
+		r.Check(filled, rule, construct, p.Pos(fn.Pos()), fmt.Sprintf("reads %d bytes and accumulates them from the highest index down (v = v<<8 | b[i]): byte k at bit 8k", n), "the accumulation loop does not run over a fully read buffer")
+		return
+	}
 	srcs := map[ssa.Value]int64{}
 	orTree(core.RetVals(rets[0])[0], 0, srcs)
 	seen := map[int64]int64{}
@@ -524,6 +546,115 @@ func checkReadHelper(p *core.Prog, r *core.Result, rule string, fn *ssa.Function
 		}
 	}
 	r.Check(ok && filled, rule, construct, p.Pos(fn.Pos()), fmt.Sprintf("reads %d bytes and places byte k at bit 8k", n), fmt.Sprintf("does not assemble %d bytes little-endian (byte k at bit 8k) from a full read", n))
+}
+
+// hornerLittleEndian recognises the accumulator of `for i := n-1; i >= 0; i-- { v = v<<8 | T(arr[i]) }` and returns
+// the array that is read.
+func hornerLittleEndian(v ssa.Value, n int) (ssa.Value, bool) {
+	acc, ok := v.(*ssa.Phi)
+	if !ok || len(acc.Edges) != 2 {
+		return nil, false
+	}
+	var step *ssa.BinOp
+	zero := false
+	for _, e := range acc.Edges {
+		if k, ok := core.ConstInt(e); ok && k == 0 {
+			zero = true
+		} else if bo, ok := e.(*ssa.BinOp); ok && (bo.Op == token.OR || bo.Op == token.ADD) {
+			step = bo
+		}
+	}
+	if !zero || step == nil {
+		return nil, false
+	}
+	var shl *ssa.BinOp
+	var byteV ssa.Value
+	for _, pr := range [][2]ssa.Value{{step.X, step.Y}, {step.Y, step.X}} {
+		if b, ok := pr[0].(*ssa.BinOp); ok && b.Op == token.SHL && b.X == ssa.Value(acc) {
+			if k, ok := core.ConstInt(b.Y); ok && k == 8 {
+				shl, byteV = b, stripConv(pr[1])
+			}
+		}
+	}
+	if shl == nil {
+		return nil, false
+	}
+	ld, ok := byteV.(*ssa.UnOp)
+	if !ok || ld.Op != token.MUL {
+		return nil, false
+	}
+	ia, ok := ld.X.(*ssa.IndexAddr)
+	if !ok {
+		return nil, false
+	}
+	idx, ok := ia.Index.(*ssa.Phi)
+	if !ok || len(idx.Edges) != 2 || idx.Block() != acc.Block() {
+		return nil, false
+	}
+	startOK, decOK := false, false
+	for _, e := range idx.Edges {
+		if k, ok := core.ConstInt(e); ok && k == int64(n-1) {
+			startOK = true
+		}
+		if bo, ok := e.(*ssa.BinOp); ok && bo.Op == token.SUB && bo.X == ssa.Value(idx) {
+			if k, ok := core.ConstInt(bo.Y); ok && k == 1 {
+				decOK = true
+			}
+		}
+	}
+	// the loop runs while i >= 0
+	condOK := false
+	if iff, ok := acc.Block().Instrs[len(acc.Block().Instrs)-1].(*ssa.If); ok {
+		if c, ok := iff.Cond.(*ssa.BinOp); ok && c.X == ssa.Value(idx) {
+			k, isConst := core.ConstInt(c.Y)
+			condOK = isConst && (c.Op == token.GEQ && k == 0 || c.Op == token.GTR && k == -1)
+		}
+	}
+	if at, ok := ia.X.Type().Underlying().(*types.Pointer); ok {
+		if arr, ok := at.Elem().Underlying().(*types.Array); !ok || arr.Len() != int64(n) {
+			return nil, false
+		}
+	}
+	if startOK && decOK && condOK {
+		return ia.X, true
+	}
+	return nil, false
+}
+
+// byteReaderWidth: h is a decoder helper that reads k single bytes in order and returns them combined little-endian
+// (first byte lowest): a k-byte unsigned reader. 0 when h is not of that shape.
+func byteReaderWidth(dt *decoderTable, h *ssa.Function) int {
+	if h == nil || h.Blocks == nil || len(h.Blocks) != 1 || dt.readByte == nil {
+		return 0
+	}
+	var reads []*ssa.Call
+	for _, c := range core.Calls(h) {
+		call, ok := c.(*ssa.Call)
+		if !ok {
+			return 0
+		}
+		switch core.Callee(c) {
+		case dt.readByte:
+			reads = append(reads, call)
+		default:
+			return 0
+		}
+	}
+	rets := core.ReturnsOf(h)
+	if len(reads) < 2 || len(rets) != 1 || len(rets[0].Results) != 1 {
+		return 0
+	}
+	srcs := map[ssa.Value]int64{}
+	orTree(rets[0].Results[0], 0, srcs)
+	if len(srcs) != len(reads) {
+		return 0
+	}
+	for i, rd := range reads {
+		if sh, ok := srcs[ssa.Value(rd)]; !ok || sh != int64(8*i) {
+			return 0
+		}
+	}
+	return len(reads)
 }
 
 // ---------- intervals ----------
